@@ -107,12 +107,21 @@ SRC_TREE = ["src/a.c", "src/gen/x.c", "lib/y.c", "gen/z.c", "src/deep/er/w.c"]
 BUILD_PREFIX = "/builds/worker/checkouts"
 
 
-def spellings(rng, root, rel):
-    """ways an input can name the source file <root>/proj/<rel> (all of them end up as the same report path under -s <root>/proj)"""
+MISSING = ["gone/q.c", "src/gen/missing.c"]
+
+
+def spellings(rng, root, rel, late=False):
+    """ways an input can name the source file <root>/proj/<rel> (all of them end up as the same report path under -s <root>/proj).
+    late: only spellings that reach the rewriting step unnormalised (add_results cannot canonicalise them)"""
     d, b = os.path.split(rel)
-    out = [rel, rel, os.path.join(root, "proj", rel), "proj/" + rel, d + "/./" + b, d + "//" + b]
     other = "lib" if not rel.startswith("lib") else "src"
-    out.append(other + "/../" + rel)
+    if rel in MISSING:
+        # a file that is not on disk is only normalised textually, at the very end of the rewriting
+        out = [rel, d + "/./" + b, d + "//" + b, other + "/../" + rel, "./" + rel]
+        return rng.choice(out[1:] if late else out)
+    if late:
+        return "proj/" + rel
+    out = [rel, rel, os.path.join(root, "proj", rel), "proj/" + rel, d + "/./" + b, d + "//" + b, other + "/../" + rel]
     return rng.choice(out)
 
 
@@ -182,11 +191,15 @@ def cli_options_iteration(chk, n):
         root = vlib.scratch("c05o_%d" % i)
         make_tree(root)
         opts = ["-s", os.path.join(root, "proj")]
+        # the glob options aim at the directory of one file, which at least one input names in a spelling that only the
+        # rewriting step itself normalises
+        target = rng.choice(SRC_TREE + MISSING)
+        tdir = os.path.dirname(target)
         r = rng.random()
         if r < 0.45:
-            opts += ["--ignore", rng.choice(["src/gen/*", "gen/*", "lib/*", "src/deep/**", "src/*"])]
+            opts += ["--ignore", rng.choice([tdir + "/*", tdir + "/*", "src/gen/*", "gen/*", "lib/*", "src/deep/**", "src/*"])]
         elif r < 0.8:
-            opts += ["--keep-only", rng.choice(["src/*", "src/gen/*", "lib/*", "gen/*", "**/er/*"])]
+            opts += ["--keep-only", rng.choice([tdir + "/*", "src/*", "src/gen/*", "lib/*", "gen/*", "**/er/*"])]
         if rng.random() < 0.3:
             opts += ["--ignore-not-existing"]
         if rng.random() < 0.2:
@@ -197,12 +210,12 @@ def cli_options_iteration(chk, n):
             opts += ["-p", pre]
         blobs = []
         for j in range(rng.randrange(1, 4)):
-            names = [spellings(rng, root, rel) for rel in rng.sample(SRC_TREE, rng.randrange(1, 4))]
+            names = [spellings(rng, root, rel) for rel in rng.sample(SRC_TREE + MISSING, rng.randrange(1, 4))]
             if pre == BUILD_PREFIX:
                 names = [BUILD_PREFIX + "/" + nm if not nm.startswith("/") and rng.random() < 0.6 else nm for nm in names]
-            if rng.random() < 0.3:
-                names.append("gone/q.c")
             blobs.append(pipeline.make_info(rng, j, names, repeat_sf=0.0))
+        late = spellings(rng, root, target, late=True)
+        blobs.append(pipeline.make_info(rng, 9, [BUILD_PREFIX + "/" + late if pre == BUILD_PREFIX and rng.random() < 0.5 else late], repeat_sf=0.0))
         for o in opts:
             if o.startswith("--") or o in ("-s", "-p"):
                 used[o] = used.get(o, 0) + 1
